@@ -109,4 +109,12 @@ CLAIMS = {
         'note': TB + 'the asynchronous processing of ping payloads (goroutine per ping) can reorder two reports of one peer; the model takes the order as given (partial).',
         'technique': 'Lean 4 proofs (relation => property; fold invariant) + relation/step correspondence on real instances',
     },
+    'C16': {
+        'text': 'Lean 4 theorems over every interleaving of acquisitions, exits and repeated releases: held <= limit, free + held = limit, and all slots '
+                'free once every permit was released. The real controller is compared step by step; that every outcome of an offer really releases is '
+                'established on the real code by scripted outcomes (8 reply kinds x 2 encodings, silent peer, full queue, real transfers) and by counting the '
+                'slots obtainable after quiescence.',
+        'note': TB + 'which exits release is dynamic evidence (scripted outcomes), not a static exit table; stop-at-any-point and post-accept dial/read failures are thorough-tier only.',
+        'technique': 'Lean 4 invariant proof over interleavings + differential correspondence + scripted-fault enumeration on real instances',
+    },
 }
